@@ -28,6 +28,16 @@ CLAIMED = {
             'to "continue or raise"',
             'contract-based deductive verification: atomic actions from the AST, interference-freedom + invariant VCs in z3',
             'DESIGN 2 C20'),
+    'C18': ('proof',
+            'Contracts of Config.load/get/reset and ConfigProxy over the three-state reference machine, proved by executing the '
+            'real bodies symbolically from an arbitrary prior state (so every history follows by induction); every failure '
+            'point of a load (validation rejection, each file-system lookup succeeding or failing, missing/invalid config '
+            'file) is a path with the exceptional postcondition "_config is None afterwards". deep_update is proved per '
+            'nesting level with the recursive call used by contract; the overlay order defaults<file<kwargs is proved on a '
+            'tree with one key per presence class; frozen=True is a class-body obligation plus an assignment obligation.',
+            'pydantic validator sequencing / frozen semantics, tomllib, Path.exists by assumed contracts; key-uniformity of '
+            'dict operations (one key per presence/type class represents all keys)',
+            'contract-based deductive verification: AST->z3 VCs of the real source, sidecar contracts', 'DESIGN 2 C18'),
 }
 REASONS_TODO = 'check not built yet (work in progress; see DESIGN.md section 2)'
 
